@@ -265,6 +265,27 @@ def motif_one_sided_liquidation_quote(rng, g, n, specs, deposit):
             {"op": "quote", "c": i, "bid": new, "ask": new}]
 
 
+def motif_zero_liquidation_side(rng, g, n, specs, deposit):
+    """The liquidation side of a held contract is quoted at exactly zero - a long with a bid of 0 and a positive
+    ask, or a short in something that became worthless (both sides 0) - the account is valued or marked there,
+    possibly traded, and then the quote comes back: zero is a price like any other."""
+    i = _pick(rng, specs, rng.choice(["margined", "margined", "spot"]))
+    if i is None:
+        i = rng.randrange(n)
+    mid = g.mids.get(i, 100.0)
+    side = rng.choice([1, 1, -1])
+    zero = {"op": "quote", "c": i, "bid": 0.0, "ask": mid * rng.choice([0.5, 1.0]) if side > 0 else 0.0}
+    new = mid * rng.choice([0.25, 0.5, 1.0, 1.5])
+    g.mids[i] = new
+    ops = [{"op": "quote", "c": i, "bid": mid, "ask": mid},
+           {"op": "trade", "c": i, "mode": "unit", "x": side * rng.choice([1, 2])},
+           zero, {"op": "mark", "c": rng.choice([None, i])} if rng.random() < 0.5 else {"op": "value"}, {"op": "value"}]
+    if rng.random() < 0.3:
+        ops += [{"op": "trade", "c": i, "mode": "unit", "x": side}, {"op": "value"}]
+    ops += [{"op": "quote", "c": i, "bid": new, "ask": new}, {"op": "value"}, {"op": "mark", "c": None}, {"op": "value"}]
+    return ops
+
+
 def motif_flip(rng, g, n, specs, deposit):
     i = rng.randrange(n)
     return [{"op": "trade", "c": i, "mode": "unit", "x": rng.choice([1, -1])},
@@ -334,8 +355,10 @@ def motif_discontinue_held(rng, g, n, specs, deposit):
     i = rng.randrange(n)
     mid = g.mids.get(i, 100.0)
     return [{"op": "trade", "c": i, "mode": "unit", "x": rng.choice([1, -1])},
+            {"op": "advance", "dt": 86400 * 2},
             {"op": "disc", "c": i},
-            {"op": "quote", "c": i, "bid": mid, "ask": mid},
+            # a late quote for the dead contract - half of the time a late print stamped before the discontinuation
+            dict({"op": "quote", "c": i, "bid": mid, "ask": mid}, **({"stamp_back_s": rng.choice([1, 3600, 86400])} if rng.random() < 0.5 else {})),
             {"op": "value"},
             {"op": "rebal", "measure": "weight", "targets": {}, "dt": 1}]
 
